@@ -38,7 +38,8 @@ Inductive pcA :=
 | Aw_closetmp (t : nat)
 | Aw_utimes (t : nat)          (* os.Chtimes(tmp) *)
 | Aw_rename (t : nat)          (* v.os.Rename(tmp, path) *)
-(* only with the repair of fixes/F7.diff: WriteBlock takes the flock on the file it is about to replace *)
+(* WriteBlock takes the flock on the file it is about to replace (since /repo a9eb270, repair of F7);
+   the legacy variant [old_noflock] goes from Aw_utimes straight to Aw_rename *)
 | Aw_fopen (t : nat)           (* v.os.OpenFile(path) *)
 | Aw_fflock (t fd : nat)       (* v.lockfile(old) *)
 | Aw_fwait (t fd : nat)        (* blocked inside flock(2) *)
@@ -67,12 +68,12 @@ Record st := {
   lockB : option nat;
   is_put : bool;               (* A is a PUT (falls through to WriteBlock) or a TOUCH request *)
   remove : bool;               (* BlobTrashLifetime = 0: Trash unlinks instead of renaming *)
-  fix7 : bool;                 (* model of the code with fixes/F7.diff applied *)
+  old_noflock : bool;          (* true = the code BEFORE a9eb270 (WriteBlock without flock): regression witness only *)
   pa : pcA; pb : pcB }.
 
 Definition upd (s : st) (ino : list inode) (p : option nat) (tr gn : list nat) (la lb : option nat) (a : pcA) (b : pcB) : st :=
   {| inodes := ino; path := p; trash := tr; gone := gn; lockA := la; lockB := lb;
-     is_put := is_put s; remove := remove s; fix7 := fix7 s; pa := a; pb := b |}.
+     is_put := is_put s; remove := remove s; old_noflock := old_noflock s; pa := a; pb := b |}.
 Definition setA (s : st) (a : pcA) : st := upd s (inodes s) (path s) (trash s) (gone s) (lockA s) (lockB s) a (pb s).
 Definition setB (s : st) (b : pcB) : st := upd s (inodes s) (path s) (trash s) (gone s) (lockA s) (lockB s) (pa s) b.
 
@@ -126,7 +127,7 @@ Definition stepA (s : st) : option st :=
                 (lockA s) (lockB s) (Aw_closetmp t) (pb s))
   | Aw_closetmp t => Some (setA s (Aw_utimes t))
   | Aw_utimes t => Some (upd s (freshen s t) (path s) (trash s) (gone s) (lockA s) (lockB s)
-                             (if fix7 s then Aw_fopen t else Aw_rename t) (pb s))
+                             (if old_noflock s then Aw_rename t else Aw_fopen t) (pb s))
   | Aw_rename t =>                                    (* rename(2) replaces whatever is at the path, NO flock *)
       Some (upd s (inodes s) (Some t) (trash s)
                 (match path s with Some old => old :: gone s | None => gone s end)
@@ -216,7 +217,7 @@ Fixpoint schedules (fuel : nat) (s : st) : list (list tid) :=
 
 (* ---- scenarios ---- *)
 Inductive prior := PAbsent | POldGood | POldCorrupt | PFreshGood.
-Definition init7 (p : prior) (put rm fx : bool) : st :=
+Definition init_gen (p : prior) (put rm old : bool) : st :=
   {| inodes := match p with
                | PAbsent => []
                | POldGood => [{| i_age := Old; i_cont := Good |}]
@@ -225,11 +226,12 @@ Definition init7 (p : prior) (put rm fx : bool) : st :=
                end;
      path := match p with PAbsent => None | _ => Some 0 end;
      trash := []; gone := []; lockA := None; lockB := None;
-     is_put := put; remove := rm; fix7 := fx;
+     is_put := put; remove := rm; old_noflock := old;
      pa := if put then Ac_stat else At_open; pb := B_open |}.
-Definition init (p : prior) (put rm : bool) : st := init7 p put rm false.
+Definition init (p : prior) (put rm : bool) : st := init_gen p put rm false.        (* the code as it is *)
+Definition init_old (p : prior) (put rm : bool) : st := init_gen p put rm true.     (* before a9eb270 *)
 
-Definition FUEL : nat := 30.   (* A has at most 3+5+6 (+5 with the repair) steps, B at most 6 *)
+Definition FUEL : nat := 30.   (* A has at most 3+5+11 steps, B at most 6 *)
 
 (* ---- observable outcome of a final state ---- *)
 Definition a_ok (s : st) : bool := match pa s with A_done AOk => true | _ => false end.
